@@ -268,7 +268,7 @@ theorem mergeNew_noPanic : ∀ (vs : List Vsys) (p1 : Config), NoPanic (mergeNew
 theorem mergeSpoc_noPanic (p1 p2 : Config) : NoPanic (mergeSpoc true p1 p2) := by
   unfold mergeSpoc
   split
-  · exact noPanic_ok _
+  · exact noPanic_diag _
   · exact mergeNew_noPanic _ _
 
 /-- `GetChanges`: `p1.Devices.Entries[0].Name` is only read for a vsys that was found in the first
@@ -370,14 +370,6 @@ theorem objListType_cycle2 (isAddr : Str → Bool) : ∀ fuel : Nat,
 
 end NA.C20.PanOs
 
-namespace NA.C20.Backend
-open NA.C20 NA.C20.Res
-
-/-- type assertions `c1.(*PanConfig)` etc.: the configurations of a run come from one backend. -/
-theorem assertKind_noPanic (k : Kind) : NoPanic (assertKind k (produce k)) := by
-  unfold assertKind produce; simp; exact noPanic_ok _
-
-end NA.C20.Backend
 
 namespace NA.C20.Files
 open NA.C20 NA.C20.Res
@@ -421,6 +413,5 @@ theorem loadInfoFile_noPanic : ∀ (l : List OpenRes),
         · exact noPanic_ok _
         · exact loadInfoFile_noPanic rest (fun o ho => h o (List.mem_cons_of_mem _ ho))
 
-theorem statusRead_noPanic (r v : Bool) : NoPanic (statusRead r v) := noPanic_ok _
 
 end NA.C20.Files
